@@ -5,6 +5,7 @@ import (
 	"encoding/json"
 	"fmt"
 	"io"
+	"math/rand"
 	"os"
 	"path/filepath"
 	"sort"
@@ -179,7 +180,12 @@ func processDocLine(gl *GenLine, pool []Expr, rep *Report, fnd *Findings) {
 			env = gc.Env
 			envJSON, _ = json.Marshal(env)
 		}
-		fails, judged, text := b.judgeExec(gl.Fam, env, gc.Ctx, gc.E, gc.R, baseStyles)
+		styles := baseStyles
+		if strings.HasPrefix(gl.Fam, "C08.") {
+			rng := rand.New(rand.NewSource(int64(ci) + seedFromEnv()))
+			styles = []Style{{}, {Abbrev: true, Space: 1}, {FullParens: true, Space: 2, Rng: rng}, {Abbrev: true, FullParens: true, Space: 2, Rng: rng}}
+		}
+		fails, judged, text := b.judgeExec(gl.Fam, env, gc.Ctx, gc.E, gc.R, styles)
 		if gl.Fam == "C04.nodes" && gc.E.Op == "call" && str(gc.E.Lo) == "string" && len(gc.E.Args) == 0 && gc.R.T == "str" {
 			// the convenience function must agree with string(.)
 			var cs []string
